@@ -175,6 +175,8 @@ func (m *roaManager) HandleROAEvent(ev *roaEvent) {
 		client.pendingROAs = make([]*table.ROA, 0)
 		client.state.RpkiMessages = oc.RpkiMessages{}
 		client.conn = nil
+		client.queries = nil
+		client.fullReload = false
 		go client.tryConnect()
 		client.timer = time.AfterFunc(time.Duration(client.lifetime)*time.Second, client.lifetimeout)
 		client.oldSessionID = client.sessionID
@@ -243,6 +245,9 @@ func (m *roaManager) handleRTRMsg(client *roaClient, state *oc.RpkiServerState, 
 		case *rtr.RTRCacheResponse:
 			received.CacheResponse++
 			client.endOfData = false
+			// a cache answers the queries in order: the response to a
+			// Reset Query is a complete reload
+			client.fullReload = client.answered()
 		case *rtr.RTRIPPrefix:
 			family := bgp.AFI_IP
 			if msg.Type == rtr.RTR_IPV4_PREFIX {
@@ -272,11 +277,13 @@ func (m *roaManager) handleRTRMsg(client *roaClient, state *oc.RpkiServerState, 
 			}
 		case *rtr.RTREndOfData:
 			received.EndOfData++
-			if client.sessionID != msg.SessionID {
+			if client.sessionID != msg.SessionID || client.fullReload {
 				// remove all ROAs related with the
-				// previous session
+				// previous session, or not part of
+				// this complete reload
 				m.table.DeleteAll(client.host)
 			}
+			client.fullReload = false
 			client.sessionID = msg.SessionID
 			client.serialNumber = msg.SerialNumber
 			client.endOfData = true
@@ -289,6 +296,7 @@ func (m *roaManager) handleRTRMsg(client *roaClient, state *oc.RpkiServerState, 
 			}
 			client.pendingROAs = make([]*table.ROA, 0)
 		case *rtr.RTRCacheReset:
+			client.answered()
 			if err := client.softReset(); err != nil {
 				m.logger.Error("Failed to send soft reset",
 					slog.String("Topic", "rpki"),
@@ -297,6 +305,7 @@ func (m *roaManager) handleRTRMsg(client *roaClient, state *oc.RpkiServerState, 
 			}
 			received.CacheReset++
 		case *rtr.RTRErrorReport:
+			client.answered()
 			received.Error++
 		}
 	} else {
@@ -359,6 +368,8 @@ type roaClient struct {
 	lifetime     int64
 	endOfData    bool
 	pendingROAs  []*table.ROA
+	queries      []bool // unanswered queries, oldest first (true: Reset Query)
+	fullReload   bool   // the response in progress answers a Reset Query
 	cancelfnc    context.CancelFunc
 	ctx          context.Context
 }
@@ -377,6 +388,17 @@ func newRoaClient(address, port string, ch chan *roaEvent, lifetime int64) *roaC
 	return c
 }
 
+// answered removes the oldest unanswered query and reports whether it was a
+// Reset Query.
+func (c *roaClient) answered() bool {
+	if len(c.queries) == 0 {
+		return false
+	}
+	reset := c.queries[0]
+	c.queries = c.queries[1:]
+	return reset
+}
+
 func (c *roaClient) enable(serial uint32) error {
 	if c.conn != nil {
 		r := rtr.NewRTRSerialQuery(c.sessionID, serial)
@@ -386,6 +408,7 @@ func (c *roaClient) enable(serial uint32) error {
 			return err
 		}
 		c.state.RpkiMessages.RpkiSent.SerialQuery++
+		c.queries = append(c.queries, false)
 	}
 	return nil
 }
@@ -399,6 +422,7 @@ func (c *roaClient) softReset() error {
 			return err
 		}
 		c.state.RpkiMessages.RpkiSent.ResetQuery++
+		c.queries = append(c.queries, true)
 		c.endOfData = false
 		c.pendingROAs = make([]*table.ROA, 0)
 	}
